@@ -35,6 +35,7 @@ pub fn profile() -> Profile {
     p.f64_vertex = true;
     p.ty.f64_ = true;
     p.vin_as_storage = 1;
+    p.keyword_names = 1;
     p
 }
 
